@@ -380,9 +380,11 @@ class FileBufferedCollection(BufferedCollection):
                 collection._flush(force=force)
             except (OSError, MetadataError) as err:
                 issues[collection._filename] = err
-        if not issues:
-            cls._buffered_collections = remaining_collections
-        else:
+        # The collections that are still buffered stay registered whether or not
+        # the flush raised; otherwise nothing would flush them (and remove their
+        # buffer entries) when the buffered contexts exit.
+        cls._buffered_collections = remaining_collections
+        if issues:
             raise BufferedError(issues)
 
     @classmethod
